@@ -2212,6 +2212,20 @@ theorem never_broken (ds : List Def) (c : Contents) (h : runDefs [] ds = .ok c) 
       | none => simp [hsig] at h1
       | some s => exact ellipsis_not_mem_render s
 
+/-- **`Signature.broken_signature_unreadable`**: when rendering the signature raises (`html2stan` refusing the
+HTML: `&nbsp;` for U+00A0, U+FFFE/U+FFFF — open findings `signature-wiped:*`), what is displayed is `(...)`
+whatever the signature was, and that never reads back as a parameter list: in this branch the property
+fails for every function with at least … any function at all. -/
+theorem broken_signature_unreadable (s : Option Sig) : parseSig (formatSignatureX s true) = none := by
+  simp [formatSignatureX, parseSig, untilRparen, parseTail, splitComma, parseSegs, parseSeg]
+
+/-- since 68b2b27 `@builtins.staticmethod` / `@builtins.classmethod` count like the bare names -/
+example :
+    handleDef .cls ['g'] [⟨some (sBuiltins, [sClassmethod]), false⟩] = .function ['g'] .classMethod false ∧
+    handleDef .cls ['g'] [⟨some (sBuiltins, [sStaticmethod]), false⟩] = .function ['g'] .staticMethod false ∧
+    handleDef .cls ['g'] [⟨some (['x'], [sClassmethod]), false⟩] = .function ['g'] .plain false := by
+  decide
+
 /-- the fallback itself: a Function object without signature (not produced from source) and a
 signature whose rendering raises are both shown as `(...)` -/
 example : formatSignatureX none false = [.lparen, .ellipsis, .rparen] ∧
